@@ -98,6 +98,10 @@ def decorate_jobs(jobs, seed, prop):
     for i, j in enumerate(jobs):
         if 'pipe_saves' not in j['plan'] and j['plan'].get('profile') not in ('flow', 'describe') and Rng(seed, prop, 'pipe-saves', i).chance(0.1):
             j['plan']['pipe_saves'] = True
+            # in half of them only every other save (1st, 3rd, ...): two consecutive saves then take the sizing-pass path and the
+            # back-patching path, and every save-vs-save oracle also decides "the bytes do not depend on the kind of stream"
+            if Rng(seed, prop, 'pipe-alt', i).chance(0.5):
+                j['plan']['pipe_alternate'] = True
     # save options: in an eighth of the runs the non-raw saves switch on only one of optimize / sortBlocks (not for C04, whose
     # oracle is about what exactly the default save does)
     for i, j in enumerate(jobs):
